@@ -72,7 +72,7 @@ func (x *c17Gen) guard() string {
 
 func (x *c17Gen) rtguard(c int) string {
 	rc := c
-	if x.r().Chance(3) {
+	if x.r().Chance(5) {
 		x.dev = true
 		x.g.Count("dev:cross-channel-rtguard")
 		rc = 3 - c
@@ -627,9 +627,40 @@ func genC17(g *Gen) {
 		g.Case()
 		x := &c17Gen{g: g}
 		r := g.R
+		mode := r.Pick(45, 40, 15) // real channels differ in id / in TYPE only / in both
+		g.Count([]string{"chmode:ids-differ", "chmode:same-id-types-differ", "chmode:both-differ"}[mode])
+		g.Op("chmode", "%d", mode)
 		x.emit(x.setMeta(1, "fresh"))
-		if r.Chance(60) {
+		twin := r.Chance(12)
+		if twin || r.Chance(60) {
 			x.emit(x.setMeta(2, "fresh"))
+		}
+		if twin {
+			// same-named tasks on BOTH channels, fenced at the same version, then one command whose task guard
+			// names one channel and whose runtime guard names the other (must be rejected)
+			g.Count("scenario:twin-tasks-crossed-guard")
+			id := r.Range(1, 3)
+			for c := 1; c <= 2; c++ {
+				m := x.metas[c]
+				tgt := x.pickNot(m.isr, m.leader)
+				x.emit(fmt.Sprintf("create %d %d 1 2 3 %d %d %d 0 0 0 0 0 0 0 0 0 0 0 0 0 0 10 0", c, id, m.leader, tgt, tgt))
+				x.emit(fmt.Sprintf("setfence %d %d %s %s 2 4 1 200 ^", c, id, c17G, c17R(c)))
+				x.tasks = append(x.tasks, &c17GTask{c: c, id: id, kind: 1, phase: 4, src: m.leader, tgt: tgt})
+			}
+			a, b := 1+r.Intn(2), 0
+			b = 3 - a
+			switch r.Intn(4) {
+			case 0:
+				x.emit(fmt.Sprintf("abort %d %d %s %s 6 * ^ 99", a, id, c17G, c17R(b)))
+			case 1:
+				x.emit(fmt.Sprintf("advance %d %d %s 2 7 ^ 0 %s 0", a, id, c17G, c17NoProof))
+				x.emit(fmt.Sprintf("clearfence %d %d %s %s 4 27 ^ 99", a, id, c17G, c17R(b)))
+				x.find(a, id).phase = 7
+			case 2:
+				x.emit(fmt.Sprintf("resetfence %d %d %s %s 2 2 900 ^", a, id, c17G, c17R(b)))
+			default:
+				x.emit(fmt.Sprintf("setfence %d %d %s %s 2 4 2 400 ^", a, id, c17G, c17R(b)))
+			}
 		}
 		n := r.Range(15, 50)
 		for i := 0; i < n; i++ {
